@@ -460,6 +460,54 @@ def _group_of(q):
     return "macro-creator-basic-xs"
 
 
+def _check_multlib(lib, suffix, dens, what, vs, stats, case):
+    """computeMacroscopicGroupConstants with a separate multiplier library: (a) an identical copy as multLib
+    changes nothing; (b) a nuclide absent from multLib contributes nothing (its documented 'skipped' fate) -
+    decided differentially: same call with that nuclide's density removed; a ValueError refusal is accepted."""
+    import copy
+
+    import numpy as np
+
+    from armi.nuclearDataIO import xsCollections as xc
+
+    present = [n for n, d in sorted(dens.items()) if d]
+    try:
+        for n in present:
+            lib.getNuclide(n, suffix)
+        mult = copy.deepcopy(lib)
+    except Exception:  # noqa: BLE001 - a nuclide missing from lib (refusal decided elsewhere) or no copy: nothing to say
+        return
+    if not present:
+        return
+
+    def f(d, m):
+        try:
+            return np.array(xc.computeMacroscopicGroupConstants("fission", d, lib, suffix, libType="micros", multConstant="neutronsPerFission", multLib=m), dtype=float)
+        except Exception as e:  # noqa: BLE001
+            return ("EXC", type(e).__name__)
+
+    base, same = f(dens, None), f(dens, mult)
+    stats["multlib"] = stats.get("multlib", 0) + 1
+    if isinstance(base, tuple) != isinstance(same, tuple) or (isinstance(base, tuple) and base != same) or (not isinstance(base, tuple) and not _close(same, base)):
+        _bad(vs, "macro-multlib-identical-copy-differs", "%s: nu*fission with multLib=an identical copy of the library gives %s, without multLib %s" % (what, L.short(same if isinstance(same, tuple) else same.tolist()), L.short(base if isinstance(base, tuple) else base.tolist())), case)
+    for x in present:
+        m2 = copy.deepcopy(lib)
+        try:
+            del m2[NUC_LABEL[x] + suffix]
+        except Exception:  # noqa: BLE001
+            continue
+        got = f(dens, m2)
+        if isinstance(got, tuple) and got[1] == "ValueError":
+            continue
+        want = f({k: v for k, v in dens.items() if k != x}, m2)
+        stats["multlib"] += 1
+        if isinstance(got, tuple) or isinstance(want, tuple):
+            if got != want:
+                _bad(vs, "macro-multlib-missing-nuclide", "%s: multLib without %s: %s, but %s when %s has no density" % (what, x, L.short(got if isinstance(got, tuple) else got.tolist()), L.short(want if isinstance(want, tuple) else want.tolist()), x), case)
+        elif not _close(got, want):
+            _bad(vs, "macro-multlib-missing-nuclide", "%s: nuclide %s is absent from the multiplier library yet contributes: nu*fission %s, %s with its density removed" % (what, x, L.short(got.tolist()), L.short(want.tolist())), case)
+
+
 def check_comp(lib, T, libname, suffix, comp, want_gamma, vs, stats, case=None, creator=None):
     import numpy as np
 
@@ -467,6 +515,8 @@ def check_comp(lib, T, libname, suffix, comp, want_gamma, vs, stats, case=None, 
     real, dens = real_outputs(lib, suffix, comp, want_gamma, creator)
     exp = expected_outputs(T, suffix, dens, want_gamma)
     what = "lib %s suffix %s composition %s" % (libname, suffix, json.dumps(comp, sort_keys=True))
+    if creator is None:
+        _check_multlib(lib, suffix, dens, what, vs, stats, case)
     empty = not any(dens.values())
     stats["outputs"] = stats.get("outputs", 0) + len(real)
     if "*" in exp:
